@@ -95,7 +95,7 @@ PROPS = {
         "required_theorems": ["read_wellformed", "wellformed_read", "read_causal", "read_pack_contiguous", "read_sorted", "read_enum_indep",
                               "read_deterministic", "refuses_two_roots", "refuses_merge_with_ops", "refuses_root_without_create",
                               "refuses_undecodable", "refuses_bad_clock", "anc_edit_lt", "pass1_ok", "pass1_complete", "pass2_ok",
-                              "pass2_complete", "gen_read_comparisons"],
+                              "pass2_complete", "gen_read_comparisons", "refuses_without_operations"],
         "slices": ["C03"],
         "rule": "random fork/merge DAG shapes (1..9 commits quick, 1..16 thorough; all sizes 1..5 first) written directly in the on-disk "
                 "format with natural or tie-forcing clocks, one of 13 perturbations (equal/decreasing/jumping clocks, zero edit time, "
@@ -152,7 +152,7 @@ PROPS = {
                               "mergeExisting_diverged", "mergeExisting_nothing_iff", "merge_unreadable_remote", "merge_invalid_entity",
                               "merge_new", "merge_existing", "merge_commit_dominates_remote", "merge_frame", "merge_clock_monotone",
                               "gen_merge_comparisons", "mergeExisting_keeps_local", "mergeExisting_gets_remote", "mergeDiverged_reaches"],
-        "slices": ["C02"],
+        "slices": ["C02", "C09"],
         "rule": "same replica schedules as C01; every pull (Fetch + MergeAll) is one case: the decoded commits reachable from all local and "
                 "remote-tracking heads, the (local, remote) head pairs in ListRefs order, the clocks; compared: per-entity status, new head, "
                 "merge commit parents and edit time, ids of the operations of the entity handed back, clocks after; oracle: every bug "
